@@ -208,6 +208,9 @@ func ruleReset(rule string) func(*Ctx) {
 					}
 				}
 				if !ok {
+					ok = clearedAfter(c, gi, "clipperBase", "isSortedMinimaList", "minimaList")
+				}
+				if !ok {
 					bad = "minimaList can grow at " + c.pos(gi.Pos()) + " without isSortedMinimaList being cleared unconditionally first"
 				}
 			}
@@ -242,14 +245,31 @@ func checkProof(c *Ctx, typ, fld string, p resetProof) string {
 		f := c.fn(p.fn)
 		sts := fieldStoresIn(c, f, typ)[fld]
 		n := 0
-		for _, callee := range p.callees {
-			for _, ci := range callsTo(c, f, callee) {
-				n++
-				_ = sts
-				if !mustStoreBefore(c, f, typ, fld, ci) {
-					return fmt.Sprintf("in %s the call to %s at %s is not preceded on every path by an assignment of %s.%s", p.fn, callee, c.pos(ci.Pos()), typ, fld)
+		_ = sts
+		// the calls (and the assignment) may have moved into helpers the reference record does not know: a call is
+		// covered when the assignment precedes it in its own function, or precedes the call to that helper
+		var walk func(g *ssa.Function, covered bool, depth int) string
+		walk = func(g *ssa.Function, covered bool, depth int) string {
+			for _, ci := range calls(g) {
+				name := calleeName(c, ci)
+				for _, callee := range p.callees {
+					if name == callee {
+						n++
+						if !covered && !mustStoreBefore(c, g, typ, fld, ci) {
+							return fmt.Sprintf("in %s the call to %s at %s is not preceded on every path by an assignment of %s.%s", c.fname(g), callee, c.pos(ci.Pos()), typ, fld)
+						}
+					}
+				}
+				if h := ci.Common().StaticCallee(); h != nil && h != g && depth < 2 && c.freshFunc(h) {
+					if b := walk(h, covered || mustStoreBefore(c, g, typ, fld, ci), depth+1); b != "" {
+						return b
+					}
 				}
 			}
+			return ""
+		}
+		if b := walk(f, false, 0); b != "" {
+			return b
 		}
 		if n == 0 {
 			return fmt.Sprintf("%s no longer calls %v", p.fn, p.callees)
@@ -395,7 +415,7 @@ func callsOrDelegates(c *Ctx, f *ssa.Function, callee string, depth int) []ssa.C
 			out = append(out, ci)
 			continue
 		}
-		if g := ci.Common().StaticCallee(); depth < 2 && c.freshFunc(g) && allReturnsPrecededBy(c, g, callee, depth+1) {
+		if g := ci.Common().StaticCallee(); depth < 2 && (c.freshFunc(g) || pureDelegate(c, f) == ci) && allReturnsPrecededBy(c, g, callee, depth+1) {
 			out = append(out, ci)
 		}
 	}
@@ -425,4 +445,51 @@ func allReturnsPrecededBy(c *Ctx, g *ssa.Function, callee string, depth int) boo
 		}
 	}
 	return n > 0
+}
+
+// pureDelegate: f does nothing but hand its work to one other function of the package and return what that returns
+// (`return c.other(args...)`): one block, one call, no stores. Returns that call (nil otherwise). What holds for the
+// callee's epilogue then holds for f's.
+func pureDelegate(c *Ctx, f *ssa.Function) ssa.CallInstruction {
+	if f == nil || len(f.Blocks) != 1 {
+		return nil
+	}
+	var only ssa.CallInstruction
+	for _, in := range f.Blocks[0].Instrs {
+		switch x := in.(type) {
+		case ssa.CallInstruction:
+			if _, isBuiltin := x.Common().Value.(*ssa.Builtin); isBuiltin {
+				continue
+			}
+			if only != nil {
+				return nil
+			}
+			only = x
+		case *ssa.Store:
+			// spilling a parameter or building the variadic slice is not work; a store through a pointer is
+			if _, ok := x.Addr.(*ssa.Alloc); !ok {
+				if ia, ok := x.Addr.(*ssa.IndexAddr); !ok || func() bool { _, isA := ia.X.(*ssa.Alloc); return !isA }() {
+					return nil
+				}
+			}
+		}
+	}
+	if only == nil {
+		return nil
+	}
+	g := only.Common().StaticCallee()
+	if g == nil || g.Blocks == nil || !c.inRepo(g) {
+		return nil
+	}
+	// only a sibling: a method of the same receiver type (or a plain function when f is one)
+	recvName := func(h *ssa.Function) string {
+		if r := h.Signature.Recv(); r != nil {
+			return strings.TrimPrefix(typeName(r.Type()), "*")
+		}
+		return ""
+	}
+	if recvName(f) != recvName(g) {
+		return nil
+	}
+	return only
 }
